@@ -63,6 +63,30 @@ def run(ctx):
                                 "cut": k, "outcome": list(outcome)})
                 elif r.random() < (0.02 if n > 40 else 0.08):
                     sample_cases.append({"cls": idx, "input": data[:k], "dec": ("err", "EUnderflow")})
+    # the NULLABLE flavour of the readers (what nested nullable structs use, and what a user gets from
+    # entity_reader(cls, nullable=True)): every prefix of marker + encoding, the empty input included
+    n_nullable = 0
+    for idx in range(0, n_schema, 9 if ctx["tier"] == "quick" else 2):
+        cls = classes[idx]
+        val = gen.entity(cls)
+        enc = cc.impl_encode(cls, to_py(cls, val))
+        if enc[0] != "ok":
+            continue
+        data = b"\x01" + enc[1]
+        nreader = entity_reader(cls, True)
+        n = len(data)
+        for k in sorted({0, 1, 2, n // 2, n - 1} & set(range(n))):
+            total_prefixes += 1
+            n_nullable += 1
+            src = StrictSource(data[:k])
+            try:
+                nreader(src)
+                outcome = ("value",)
+            except Exception as e:  # noqa
+                outcome = ("err", cc.err_name(e), type(e).__name__)
+            if outcome[0] != "err" or outcome[1] != "EUnderflow":
+                bad.append({"class": _codec.cls_name(classes, idx) + " (nullable flavour)", "cls": idx, "value": val, "encoding": data.hex(),
+                            "cut": k, "outcome": list(outcome)})
     # large length-prefixed fields (beyond typical buffer sizes), in particular as the last field
     from ..values import describe
     big_targets = []
